@@ -43,3 +43,12 @@ package fx
 //@   requires opts != nil
 //@   ensures opts.workers == max(workers, 1) && opts.unlimitedWorkers == old(opts.unlimitedWorkers)
 //@   modifies opts.workers
+
+// options are applied to a fresh option set per call: nothing an earlier stream asked for (e.g. unlimited workers) sticks
+//@ func buildOptions
+//@   property C05
+//@   flag callbacks_noheap
+//@   ghost at after newOptions#0: fo = ret
+//@   loop 0: invariant options == fo
+//@   call opt#0: assert arg0 == fo
+//@   ensures result == fo && fresh(result)
